@@ -418,7 +418,9 @@ fn main() {
                     while let Some(i) = rest.find("_ddiast.") {
                         let tail = &rest[i + 8..];
                         let name: String = tail.chars().take_while(|c| c.is_ascii_alphanumeric() || *c == '_' || *c == '$').collect();
-                        if !name.is_empty() && !code.contains(&format!("{name}: noop")) && bad.is_none() { bad = Some(name.clone()); }
+                        // any property definition of that name in the output counts (`name: ..`, `name : ..`, `'name': ..`, `["name"] = ..`)
+                        let defined = [format!("{name}:"), format!("{name} :"), format!("'{name}'"), format!("\"{name}\"")].iter().any(|p| code.contains(p.as_str()));
+                        if !name.is_empty() && !defined && bad.is_none() { bad = Some(name.clone()); }
                         rest = &tail[name.len()..];
                     }
                     println!("--- hook used without a pass-through in the prologue: {:?}", bad);
